@@ -281,6 +281,7 @@ def run_check(prop, tier='quick', seed=0, only=None, nproc=None, verbose=True):
     inconclusive = []
     harness_errors = []
     violations = []
+    witness_jobs = []
     non_replays = []
     extra_violations = [0]
     known_hits = {}
@@ -336,6 +337,7 @@ def run_check(prop, tier='quick', seed=0, only=None, nproc=None, verbose=True):
         for name, w in r.get('witnesses', {}).items():
             if len([s for s in samples if s.get('obligation') == key and s.get('witness') == name]) == 0:
                 samples.append({'obligation': key, 'witness': name, 'input': w})
+                witness_jobs.append((key, name, job, w))
         o.setdefault('witnesses_declared', set()).update(r.get('declared_witnesses', []))
         o.setdefault('witnesses_found', set()).update(r.get('witnesses', {}).keys())
         kept.extend(r.get('kept_queries', []))
@@ -403,6 +405,31 @@ def run_check(prop, tier='quick', seed=0, only=None, nproc=None, verbose=True):
             inconclusive.append('%s: reachability witness not found: %s' % (key, miss))
             o['verdict'] = 'vacuous'
 
+    # the witnesses (concrete inputs of the interesting regions, found by the solver on paths
+    # where the property HOLDS) are pushed through the real, uninstrumented code with the
+    # replay oracle: it must agree that nothing is violated.  This validates harness, stubs and
+    # models against the implementation on every run.
+    n_wit_ok = 0
+    if not violations and getattr(mod, 'REPLAY_WITNESSES', True) and os.environ.get('VERIF_WITNESS_REPLAY', '1') != '0':
+        import concurrent.futures as cf
+
+        def _rw(item):
+            key, name, job, w = item
+            if not isinstance(w, dict):
+                return item, None
+            return item, replay_subprocess(modname, job, w, timeout=180)
+        with cf.ThreadPoolExecutor(max_workers=min(nproc, 8)) as pool:
+            for (key, name, job, w), rep in pool.map(_rw, witness_jobs[:24]):
+                if rep is None or rep.get('abstract') or rep.get('error'):
+                    continue
+                sig = rep.get('signature', '')
+                if rep.get('reproduced') and not any(sig and sig.startswith(k['signature']) for k in known):
+                    harness_errors.append('%s: witness %s is a violation for the replay oracle although the symbolic side holds: %r -> %r' % (key, name, w, rep.get('detail')))
+                    obl[key]['verdict'] = 'harness-error'
+                else:
+                    n_wit_ok += 1
+    n_replays += n_wit_ok
+
     # second solver on a sample of the final queries
     cross = cross_check(kept, tier) if kept else {'checked': 0}
     if cross.get('disagreements'):
@@ -462,7 +489,8 @@ def run_check(prop, tier='quick', seed=0, only=None, nproc=None, verbose=True):
             'solver_s': round(total.solver_s, 2),
             'max_query_s': round(total.max_query_s, 2),
             'model_validation_samples': n_validated,
-            'counterexamples_replayed': n_replays,
+            'counterexamples_replayed': n_replays - n_wit_ok,
+            'witnesses_replayed_on_the_real_code': n_wit_ok,
             'second_solver': cross,
             'known_findings_reconfirmed': sorted(known_hits),
             'bounds': getattr(mod, 'BOUNDS', {}).get(tier, ''),
